@@ -38,6 +38,10 @@ def run(tier):
         ins.append({"id": i, "nodes": s["nodes"], "strategy": s["strategy"], "pool": s["pool"], "policy": s["policy"],
                     "tablets": None if s["tablets"] == "none" else s["tablets"], "keys": keys, "rounds": s["rounds"],
                     "nat": s["nat"], "initial_tablets": s["initial_tablets"], "refresh": s["refresh"]})
+        if "msb_change" in s:
+            ins[-1]["msb_change"] = s["msb_change"]
+        if "cdc" in s:                 # another partitioner: the scenario brings its own keys (tokens by Murmur3.CdcToken)
+            ins[-1].update(cdc=s["cdc"], prepare_fail=s["prepare_fail"], keys=s["keys"])
     sin, sout = os.path.join(wd, "scen.ndjson"), os.path.join(wd, "out.ndjson")
     write_ndjson(sin, ins)
     p = run_harness("vh-driver", ["c12", "run", sin, sout], timeout=3400)
@@ -48,10 +52,13 @@ def run(tier):
     for s, o in zip(scen, outs):
         if o.get("start_err"):
             raise ToolError("c12 scenario %s could not be set up: %s" % (o.get("id"), o["start_err"][:300]))
+        if "msb_change" in s:           # the judge expects the shard under the NEW ignore-msb of the reconfigured node
+            s["nodes"][s["msb_change"]["node"]]["msb"] = s["msb_change"]["msb"]
         o.update(nodes=s["nodes"], strategy=s["strategy"], policy=s["policy"], has_tablets=0 if s["tablets"] == "none" else 1, nat=s["nat"],
                  tablets=[] if s["tablets"] == "none" else s["tablets"])
+        tokof = {k["pk"]: k["token"] for k in s["keys"]} if "keys" in s else keytok
         for e in o["execs"]:
-            e["token"] = keytok[e["pk"]]
+            e["token"] = tokof[e["pk"]]
             e["err"] = e.get("err", "")[:160]
             co = e.get("coordinator", "none")
             e["coordinator"] = {"some": 0} if co == "none" else {"some": 1, "node": co["node"], "shard": co["shard"]}
